@@ -131,6 +131,45 @@ def r3_promotion(rep, facts):
         rep.check(R, f'{ty}|recurses', s['recurses'], 'calls the default visit_item_mut', f'`{ty}` does not continue the walk', facts.loc(b))
 
 
+def r3b_empty_tables(rep, facts):
+    R = rep.rule('C07/R3b', 'the formatting visitors never mark an empty table implicit: the printer hides an implicit table without values of its own (a nested header '
+                 'implies it), so an empty struct / map / all-None struct marked implicit would vanish from the text.  Decided by evaluating every override of '
+                 'VisitMut::visit_table_mut on an empty and a non-empty table with set_implicit recorded', floor=2)
+    from .den import RecInterp, Evaluator, Unanalysable, EvalPanic
+    n = 0
+    for imp in facts.impls:
+        if imp.get('trait') != 'toml_edit::visit_mut::VisitMut':
+            continue
+        d = facts.impl_method(imp, 'visit_table_mut')
+        if not d or not facts.has_body(d):
+            continue
+        b = facts.body(d)
+        ty = last_seg(imp.get('self_ty') or '?')
+        pn = [p['name'] for p in b.get('params', []) if p.get('k') == 'p_bind']
+        res = {}
+        try:
+            for empty in (True, False):
+                kids = () if empty else ((('key', 0), ('elem', 0)),)
+                it = RecInterp(Evaluator(facts), {'set_implicit', 'clear', 'set_dotted', 'set_position', 'fmt', 'visit_table_like_mut'}, {'visit_table_mut', 'visit_table_like_mut'},
+                               stubs={'is_empty': empty, 'len': 0 if empty else 1, 'get_values': kids, 'decor_mut': ('opaque',)})
+                env = {pn[0]: ('opaque',), pn[1]: ('struct', 'toml_edit::table::Table', {}), '@assign': {}}
+                try:
+                    it.val(b['body'], env)
+                except EvalPanic:
+                    pass
+                res[empty] = [a[0] for nm, a in it.calls if nm == 'set_implicit' and a]
+        except Unanalysable as e:
+            rep.incomplete(R, f'{ty}|empty-table-keeps-header', f'cannot evaluate `{d}`: {e}', facts.loc(b))
+            continue
+        n += 1
+        ok = True not in res[True] or (res[True] and res[True][-1] is False)
+        rep.check(R, f'{ty}|empty-table-keeps-header', ok, f'empty: set_implicit{res[True]}, non-empty: set_implicit{res[False]}',
+                  f'`{ty}::visit_table_mut` marks an empty table implicit (set_implicit{res[True]}): the printer hides implicit tables without values, so an empty struct or map '
+                  f'disappears from the serialized text without an error', facts.loc(b))
+    want = 2 if 'toml' in facts.crates and 'display' in set(facts.crates['toml'].get('features', [])) else 1
+    rep.check(R, 'overrides', n >= want, f'{n} overrides of visit_table_mut evaluated', f'only {n} overrides of VisitMut::visit_table_mut found (toml_edit::ser::pretty::Pretty and, with toml\'s display feature, toml::fmt::DocumentFormatter expected)')
+
+
 def r4_container_typing(rep, facts):
     R = rep.rule('C07/R4', 'library code stores only Item::Value (or the placeholder Item::None) into Array::values and InlineTable::items', floor=3)
     # writers of Array.values / pushes
@@ -217,6 +256,7 @@ def rules(rep, facts):
     r2b_flag_locality(rep, facts)
     r7_forwarding(rep, facts)
     r3_promotion(rep, facts)
+    r3b_empty_tables(rep, facts)
     r4_container_typing(rep, facts)
     r6_option_mirror(rep, facts)
     if 'toml' in facts.crates and facts.has_method('serde::ser::Serialize', 'toml::value::Value', 'serialize'):
